@@ -102,7 +102,7 @@ def run(tier, seed):
     meta = []
     for v in VERSIONS:
         g = gen.MsgGen(rng, version=v)
-        mts = sorted(g.lib.MESSAGES)
+        mts = g.structures()
         for mt in rng.sample(mts, min(len(mts), 12 if tier == 'quick' else 80)):
             for style in ('required', 'random'):
                 try:
